@@ -201,7 +201,14 @@ func execC13(c c13Case) Outcome {
 			}
 		case "blocked_login":
 			nt = true
-			if _, err := w.WriteString("4242 Accepted password for u from 1.2.3.4 port 22 ssh2\n"); err != nil {
+			// any of the four accepted-login record shapes (each has its own hand-over site)
+			accepted := []string{
+				"4242 Accepted password for u from 1.2.3.4 port 22 ssh2\n",
+				"4242 Accepted publickey for u from 1.2.3.4 port 22 ssh2: ED25519 SHA256:0123456789abcdefghijklmnopqrstuvwxyzABCDEFG\n",
+				"4242 Accepted publickey for u from 1.2.3.4 port 22 ssh2: ED25519 SHA256:0123456789abcdefghijklmnopqrstuvwxyzABCDEFG trailing text\n",
+				"4242 Accepted publickey for u from 1.2.3.4 port 22 ssh2: ED25519-CERT SHA256:0123456789abcdefghijklmnopqrstuvwxyzABCDEFG ID u@host (serial 7) CA RSA SHA256:abcdefghijklmnopqrstuvwxyz0123456789ABCDEFG\n",
+			}[(c.Pre+c.Cap+c.DelayU)%4]
+			if _, err := w.WriteString(accepted); err != nil {
 				return fail("writer: %v", err)
 			}
 			// wait until the worker is in (or about to enter) the hand-off: normally the
@@ -441,7 +448,11 @@ func TestC13_Enum(t *testing.T) {
 				caps = []int{0, 1, 7, 100}
 			}
 			for _, cp := range caps {
-				for _, pre := range []int{0, 3} {
+				pres := []int{0, 3}
+				if ws.s == "blocked_login" {
+					pres = []int{0, 1, 2, 3} // one per accepted-login record shape
+				}
+				for _, pre := range pres {
 					n++
 					if n%sn != si {
 						continue
